@@ -298,6 +298,9 @@ def write_evidence(pid: str, tier: str, seed: int, level: str, coverage: dict[st
     }
     os.makedirs(os.path.join(VERIF, "evidence"), exist_ok=True)
     path = os.path.join(VERIF, "evidence", pid + ".json")
+    if os.path.realpath(os.environ.get("VERIF_REPO", "/repo")) != "/repo":
+        # a development run against another tree (a seeded change): never overwrite the evidence of /repo
+        path = os.path.join(VERIF, "evidence", pid + ".seedrun")
     with open(path, "w") as f:
         json.dump(ev, f, indent=1, default=str)
         f.write("\n")
